@@ -10,7 +10,8 @@ import idx_common as I
 
 ID = "C05"
 LEAN_MODULES = ["CatiiProps.C05"]
-RULE = ("cases of C03 (dyadic stream; one-, two- and three-axis dims); for every dimension d and every value v in "
+RULE = ("cases of C03 (dyadic stream, every fourth case arbitrary doubles compared within 1e-9 x grand total with the missing "
+        "cells exactly; one-, two- and three-axis dims); for every dimension d and every value v in "
         "0..extent plus one value outside the data: d is replaced by a copy shifted to common v (and, separately, "
         "re-normalised with shift_common() afterwards); every aggregate of C03 is compared with the unshifted cube over "
         "the same explicit shape: missing cells exactly, values exactly. Non-trivial = the shifted dimension has rows; "
@@ -38,12 +39,15 @@ def check(ctx, case, reqs, pend):
             try:
                 shifted.shift_common(v)
                 renorm = shifted.copy()
-                renorm.shift_common()
+                if len(ix.shape) <= 2:
+                    renorm.shift_common()
             except Exception as e:
                 ctx.oracle_fail("shift_common(%d) raised %s" % (v, type(e).__name__), A.small_desc(case, {"dim": a, "v": v}),
                                 cls="C05-raises")
                 continue
             variants = [("shift_common(%d)" % v, shifted), ("shift_common(%d) then shift_common()" % v, renorm)]
+            if len(ix.shape) > 2:      # shift_common is defined for one- and two-axis indexes (C06's quantifier)
+                variants = variants[:1]
             for func in A.FUNCS:
                 desc = A.small_desc(case, {"func": func, "dim": a, "v": v, "shape": shape})
                 ctx.case(desc, nontrivial=N > 0)
@@ -68,6 +72,11 @@ def check(ctx, case, reqs, pend):
                         bad = "shape" if sv.shape != bv.shape else tuple(int(x) for x in np.argwhere(sm != bm)[0])
                         ctx.oracle_fail("%s: after %s on dimension %d the missing cells differ (%s)" % (func, name, a, bad), desc,
                                         cls="C05-differs")
+                    elif case["general"]:
+                        tol = 1e-9 * A.grand_total(case, func)
+                        if not np.all(np.abs(sv[~bm] - bv[~bm]) <= tol):
+                            ctx.oracle_fail("%s: after %s on dimension %d values move by more than %g" % (func, name, a, tol), desc,
+                                            cls="C05-differs")
                     elif not np.array_equal(sv[~bm], bv[~bm]):
                         pos = np.argwhere((sv != bv) & ~bm)[0]
                         pos = tuple(int(x) for x in pos)
@@ -88,9 +97,16 @@ def check(ctx, case, reqs, pend):
 def run(ctx):
     core.load_catii()
     reqs, pend = [], []
-    for _ in range(ctx.n(14)):
+    for it in range(ctx.n(14)):
         case = A.gen_case(ctx.rng, multi_axis=ctx.rng.random() < 0.3, k=ctx.rng.choice([1, 2, 2, 3]),
-                          N=ctx.rng.choice([0, 1, 3, 5, 9]))
+                          N=ctx.rng.choice([0, 1, 3, 5, 9]), general=(it % 4 == 3))
+        if case["general"]:
+            ctx.hit("general_stream")
+        check(ctx, case, reqs, pend)
+    for _ in range(ctx.n(9)):       # residue stream: inexact weight sums; empty cells must stay missing after differencing
+        case = A.gen_case(ctx.rng, k=2, N=ctx.rng.choice([9, 14, 25]), general="residue")
+        case["ignore"] = True if _ % 2 else case["ignore"]
+        ctx.hit("residue_stream")
         check(ctx, case, reqs, pend)
     if ctx.oracle_only:
         return
